@@ -239,7 +239,7 @@ def run_shards(work, binary, prop, tier, seed, nshards, args=(), env=None, tag=N
             res.inconclusive.append("watchdog: shard timed out after %ds: %s" % (timeout, " ".join(cmd)))
         ef.close()
         if os.path.exists(out):
-            with open(out) as f:
+            with open(out, errors="replace") as f:
                 for ln in f:
                     ln = ln.strip()
                     if not ln:
@@ -248,8 +248,10 @@ def run_shards(work, binary, prop, tier, seed, nshards, args=(), env=None, tag=N
                         res.add_line(json.loads(ln), tag)
                     except json.JSONDecodeError:
                         res.inconclusive.append("unparsable harness output line in %s" % out)
-        if p.returncode not in expect_exit and p.returncode is not None:
-            serr = open(ef.name).read()[-3000:]
+        if p.returncode == 86:
+            res.inconclusive.append("the OpenMP stand-in cannot execute a construct the library now uses (%s): %s" % (tag, open(ef.name, errors="replace").read()[-300:].strip()))
+        elif p.returncode not in expect_exit and p.returncode is not None:
+            serr = open(ef.name, errors="replace").read()[-3000:]
             # a harness process that died outside a forked case group: attribute as a violation of the run itself
             kind = classify_death(serr, p.returncode)
             res.violations.setdefault("%s:%s:process:%s" % (prop, tag, kind),
